@@ -6,6 +6,7 @@ import (
 	"os"
 	"regexp"
 	"sort"
+	"strconv"
 	"strings"
 	"time"
 )
@@ -65,6 +66,19 @@ func cmdSSA(args []string) {
 	for _, k := range p.sortedFuncKeys() {
 		if re.MatchString(k) {
 			p.funcs[k].WriteTo(os.Stdout)
+			for i, h := range p.loopHeaders(p.funcs[k]) {
+				var pos string
+				for b := range loopBody(h) {
+					_ = b
+				}
+				for _, in := range h.Instrs {
+					if in.Pos().IsValid() {
+						pos = p.prog.Fset.Position(in.Pos()).String()
+						break
+					}
+				}
+				fmt.Printf("# loop %d: header block %d (%s) %s\n", i+1, h.Index, h.Comment, pos)
+			}
 		}
 	}
 }
@@ -106,6 +120,7 @@ func cmdVerify(args []string) {
 	safety := fs.Bool("safety", false, "treat functions without panics clause as panics never")
 	nocache := fs.Bool("nocache", false, "ignore the verdict cache")
 	all := fs.Bool("all", false, "run all solvers")
+	why := fs.String("why", "", "for undischarged obligations matching this regexp: print the path of the candidate countermodel")
 	fs.Parse(args[1:])
 	p := mustLoad()
 	re := regexp.MustCompile(args[0])
@@ -146,6 +161,9 @@ func cmdVerify(args []string) {
 				fmt.Printf("         at %s  %s\n", o.Pos, o.Detail)
 			}
 		}
+		if *why != "" && o.Status != "proved" && regexp.MustCompile(*why).MatchString(o.Name) {
+			explainPath(j.vc, o)
+		}
 		if dumpRe != nil && dumpRe.MatchString(o.Name) {
 			fn := "/tmp/govc-dump/" + sanitize(o.Name) + ".smt2"
 			os.WriteFile(fn, []byte(j.vc.query(o, true)), 0o644)
@@ -158,3 +176,49 @@ func cmdVerify(args []string) {
 	fmt.Printf("%v  total %.1fs\n", counts, time.Since(t0).Seconds())
 }
 
+
+// explainPath: which CFG edges does the (quantifier-free) candidate countermodel take?
+func explainPath(vc *VC, o *Obligation) {
+	q := vc.query(o, true)
+	var b strings.Builder
+	lines := strings.Split(q, "\n")
+	edgeRe := regexp.MustCompile(`\(define-fun (edge_[0-9]+_[0-9]+![0-9]+) \(\) Bool`)
+	var edges []string
+	for i, l := range lines {
+		if strings.HasPrefix(l, "(get-model)") {
+			continue
+		}
+		if i < len(lines)-4 && strings.HasPrefix(l, "(assert") && (strings.Contains(l, "(forall ") || strings.Contains(l, "(exists ")) {
+			continue
+		}
+		if m := edgeRe.FindStringSubmatch(l); m != nil {
+			edges = append(edges, m[1])
+		}
+		b.WriteString(l)
+		b.WriteString("\n")
+	}
+	if len(edges) == 0 {
+		fmt.Println("  (no branch on the path)")
+		return
+	}
+	b.WriteString("(get-value (" + strings.Join(edges, " ") + "))\n")
+	r := runSolver("z3-new", b.String(), 10*time.Second)
+	if r.verdict != "sat" {
+		fmt.Println("  no candidate model:", r.verdict)
+		return
+	}
+	valRe := regexp.MustCompile(`\((edge_([0-9]+)_([0-9]+)![0-9]+) true\)`)
+	for _, m := range valRe.FindAllStringSubmatch(r.out, -1) {
+		from, _ := strconv.Atoi(m[2])
+		to, _ := strconv.Atoi(m[3])
+		tb := vc.fn.Blocks[to]
+		pos := ""
+		for _, in := range tb.Instrs {
+			if in.Pos().IsValid() {
+				pos = vc.prog.prog.Fset.Position(in.Pos()).String()
+				break
+			}
+		}
+		fmt.Printf("  path: b%d -> b%d (%s) %s\n", from, to, tb.Comment, pos)
+	}
+}
